@@ -76,6 +76,10 @@ def translate():
     need(r"fn emit_tokens\(&mut self, tokens: &\[Token\]\) -> CoreResult<\(\)> \{ let mut errors = Diagnostics::default\(\); for token in tokens \{ "
          r"if let Err\(result\) = self\.emit_token\(token\) \{ errors\.extend\(result\); \} \} if errors\.is_empty\(\) \{ Ok\(\(\)\) \} else \{ Err\(errors\) \} \}",
          src, "emit_tokens error collection")
+    # every binary operator evaluates BOTH operands (no short-circuit for && / ||): usages of the right operand are tracked
+    # whatever the left operand is
+    need(r"Expression::BinaryExpression\(bin\) => \{ let lhs = self\.evaluate_expression\(&bin\.lhs, track_usage\)\?; "
+         r"let rhs = self\.evaluate_expression\(&bin\.rhs, track_usage\)\?; match \(lhs, rhs\) \{", ev, "binary expression evaluates both operands")
     bad = [k for k, v in table.items() if v is None]
     if bad:
         raise ShapeError("span expression of %s is not the offending construct's" % ", ".join(bad))
@@ -88,6 +92,8 @@ def translate():
     for k in kinds:
         out.append("  | %s => %s" % (k, table[k]))
     out.append("  end.")
+    out.append("(* Evaluator::evaluate_expression, BinaryExpression arm: lhs and rhs are both evaluated before the operator is applied *)")
+    out.append("Definition binary_evaluates_both : bool := true.")
     text = "\n".join(out) + "\n"
     fp = write_if_changed("ErrSpans.v", text)
     return {"fingerprint": fp, "table": table}
